@@ -173,8 +173,16 @@ def execute(case):
                     # (a worker that was already dead when the termination
                     # began - unnoticed so far - did not "exit in time": the
                     # signals go to a zombie and reach nobody)
+                    # (a stop signal sent to the corpse before this SIGKILL
+                    # marks a *new* termination of a worker whose death has
+                    # not been noticed yet, not the end of this one)
+                    restarted = any(
+                        x["sig"] != 9 and not x["delivered"] and
+                        p.died_ncall is not None and
+                        p.died_ncall < x["ncall"] <= e["ncall"]
+                        for x in sigs)
                     if not e["delivered"] and died_at is not None and \
-                            not dead_before and \
+                            not dead_before and not restarted and \
                             t0 - EPS <= died_at <= t0 + gt + EPS:
                         dead_for = e["t"] - died_at
                         if dead_for > STEP + EPS:
